@@ -981,3 +981,34 @@ def compared_container_fields(ctx, rule, module_name, floor=1):
                                 f'`{F}` is bound to a {k} (`{short(v, 50)}`) here and to a {major} at {len(known[major])} other site(s) (e.g. `{short(known[major][0][2], 40)}` in '
                                 f'{known[major][0][3]}); the field is compared with == / != as a whole, and a {k} never equals a {major}: values with the same contents '
                                 f'compare unequal', where=where)
+
+
+# ------------------------------------------------------------------------------------------------ memoised values
+def memo_soundness(ctx, rule, module_names):
+    """stamped memos (`if self.stamp != self.counter: refresh`) answer for the current state; keyed memos have every input in their key
+    (pdsa/memos.py).  Sound stamped memos were already removed by the normaliser: what is found here is reported."""
+    from . import memos
+    prog = ctx.prog
+    ctx.rule(rule, 'a memoised value answers for the current state: a stamp guard fails after every change of what the value was computed from; '
+                   'every input of a keyed memo entry is part of its key')
+    trees = {n: prog.modules[n].tree for n in module_names if n in prog.modules}
+    n = 0
+    for memo in memos.find_stamped(trees):
+        n += 1
+        probs = memos.check_stamped(memo, trees)
+        ctx.examined()
+        ctx.ob(rule, f'{memo.guard_cls}.{memo.guard_fn.name}:stamp:{memo.stamp}', not probs,
+               sample=f'{memo.guard_cls}: memo {sorted(memo.value_fields)} valid while self.{memo.stamp} == {unparse(memo.src)}: every change of its inputs invalidates it: {not probs}')
+        for (c, m, x, msg) in probs[:2]:
+            ci = prog.classes.get(c)
+            ctx.finding(rule, f'{c}.{m.name}:stale-memo:{memo.stamp}', ci, x if hasattr(x, 'lineno') else m, msg, where=f'{c}.{m.name}')
+    for mn, tree in trees.items():
+        for (cls, fn, st, mt, missing) in memos.keyed_memo_problems(tree):
+            n += 1
+            ci = prog.classes.get(cls) if cls else None
+            where = f'{cls}.{fn.name}' if cls else f'{mn}.{fn.name}'
+            ctx.ob(rule, f'{where}:memo-key', False, sample=f'{where}: `{short(st, 60)}`')
+            ctx.finding(rule, f'{where}:memo-key:{",".join(missing)}', ci, st,
+                        f'the entry stored by `{short(st, 70)}` is computed from {", ".join("`" + m_ + "`" for m_ in missing)}, which is not part of the key it is stored under: '
+                        f'a later call that differs only in {" / ".join(missing)} is answered with this entry', where=where, module=prog.modules[mn])
+    ctx.note(f'{rule}: {n} memo guard(s) / keyed memo store(s) with findings or left after normalisation in {sorted(trees)}')
